@@ -141,7 +141,7 @@ def real_run(case):
 
 
 def run(tier, rep, salt=0, faults=False):
-    n = 400 if tier == 'quick' else 20000
+    n = 400 if tier == 'quick' else (3000 if faults else 20000)
     rng = random.Random(core.seed() * 67867967 + 10 + salt)
     cases = [gen_case(rng) for _ in range(n)]
     if faults:
